@@ -226,7 +226,16 @@ class jumping_clocks:
 
     def __enter__(self):
         import time
+        from . import clock
         self.time = time
+        self.shim = clock.installed()
+        if self.shim:
+            # the wrappers installed before mido was imported (vmon.clock): also seen by `from time import monotonic`
+            self.saved = {'sleep': time.sleep}
+            self.was = dict(clock.state)
+            clock.state.update(active=True, offset=0.0)
+            time.sleep = lambda d=0: None
+            return self
         self.saved = {n: getattr(time, n) for n in self.NAMES + ('sleep', 'time_ns', 'monotonic_ns', 'perf_counter_ns')}
         self.offset = 0.0
 
@@ -250,6 +259,9 @@ class jumping_clocks:
     def __exit__(self, *exc):
         for n, f in self.saved.items():
             setattr(self.time, n, f)
+        if self.shim:
+            from . import clock
+            clock.state.update(self.was)
         return False
 
 
